@@ -156,14 +156,18 @@ def oracle(hist, records):
         # pattern dependency of a task that was reported SKIP_PREVIOUS_FAILED before the dependant's generator ran.
         cut = {u for u in byid if outcome.get(u) == "SKIP_PREVIOUS_FAILED" and byid[u]["pdeps"]}
         for f in set(failed):
-            desc = below(f, edges)
-            for d in desc:
-                if stopped or d not in pos or pos[d] < pos[f] or d not in byid or f not in byid:
+            for d in byid:
+                if stopped or d not in pos or pos[d] < pos[f] or f not in byid or d == f:
+                    continue
+                # tasks that existed when d was handed out: collected ones, and those whose generator had run
+                alive = {x for x, sx in byid.items() if sx.get("parent") is None or (sx["parent"] in pos and pos[sx["parent"]] < pos[d])}
+                live_edges = {e for e in edges if e[0] in alive and e[1] in alive}
+                if d not in below(f, live_edges):
                     continue
                 if d in starts or outcome[d] != "SKIP_PREVIOUS_FAILED":
                     gen_d = byid[d].get("parent")
                     cut_now = {u for u in cut if gen_d is not None and gen_d in pos and pos[u] < pos[gen_d]}
-                    uncut = {e for e in edges if not (e in pat_edges and e[1] in cut_now)}
+                    uncut = {e for e in live_edges if not (e in pat_edges and e[1] in cut_now)}
                     finding = "F38" if gen_d is not None and cut_now and d not in below(f, uncut) else None
                     bad.append(("failure", f"build {bi}: task {d} depends on task {f}, which FAILED earlier in this build, but it was not skipped "
                                            f"(outcome {outcome[d]}, body {'ran' if d in starts else 'did not run'}); reports {reps}", finding))
@@ -179,9 +183,10 @@ def oracle(hist, records):
         for g, spec_g in byid.items():
             if not spec_g.get("gen") or g not in pos:
                 continue
-            bad_kids = [k["id"] for k in spec["tasks"] if k.get("parent") == g and k.get("uncollectable")]
+            bad_kids = [k["id"] for k in spec["tasks"] if k.get("parent") == g and (k.get("uncollectable") or k.get("alias") is not None)]
             if bad_kids and g in starts and not spec_g.get("fails"):
-                # a defined task that cannot be collected is not dropped silently: the generator fails, nothing it defined runs
+                # a defined task that cannot be collected, or that takes the name of an existing task, is not dropped / merged silently:
+                # the generator fails, nothing it defined runs
                 fixed = [k["id"] for k in spec["tasks"] if k.get("parent") == g]
                 if outcome[g] != "FAIL":
                     bad.append(("generated", f"build {bi}: generator {g} defined task(s) {bad_kids} that cannot be collected but was reported {outcome[g]}", None))
@@ -243,10 +248,15 @@ def oracle(hist, records):
                     nkids = len([k for k in spec["tasks"] if k.get("parent") == t])
                     got_any = t in rline and any(rline[t][0])
                     excused = st.get("fails") or (nkids == 0 and not (t in perfile and got_any)) or \
-                        any(k.get("uncollectable") for k in spec["tasks"] if k.get("parent") == t)
+                        any(k.get("uncollectable") or k.get("alias") is not None for k in spec["tasks"] if k.get("parent") == t)
                 else:
                     need = list(st["deps"]) + ([st["cnt"]] if st.get("cnt") is not None else [])
                     excused = st.get("fails") or any(d not in rec["post"] or d not in rec["pre"] and d in spec["inputs"] for d in need)
+                    for k in pa.after_ids(spec, st):
+                        sk = byid.get(k)
+                        if sk is not None and sk["pprods"]:
+                            kr = set().union(*[ranges[p] for p in sk["pprods"]])
+                            excused = excused or any(w != k and r & kr for w, r in writers.items())
                     crange = set().union(*[ranges[p] for p in st["pdeps"]]) if st["pdeps"] else set()
                     # a matched file removed by an overlapping producer between the resolution and the read
                     excused = excused or any(w in starts and r & crange for w, r in writers.items() if w != t and not set(byid[w]["pprods"]) & set(st["pdeps"]))
@@ -331,7 +341,7 @@ def corpus():
             "spec": {"pats": pats, "tasks": [_t(1, deps=[102], prods=[220], fails="late"), _t(2, deps=[102], prods=[221], fails=True),
                                              _t(3, cnt=100, pprods=[f0], fails="late"), _t(4, deps=[102], gen=True),
                                              _t(5, deps=[220], prods=[222], parent=4), _t(6, deps=[221], prods=[223], parent=4),
-                                             _t(7, pdeps=[f0], prods=[224], parent=4), _t(8, deps=[222], prods=[225])],
+                                             _t(7, pdeps=[f0], prods=[224], parent=4)],
                      "perfile": {}, "inputs": {"100": 2, "102": 4}, "version": 0},
             "steps": [["build"], ["build"]]}
     # F38 witness: 1 (pattern producer) fails; 2 (pattern consumer, product 101 left over) is skipped; then generator 5 defines 6 <- 101
@@ -340,7 +350,13 @@ def corpus():
                                             _t(6, deps=[101, 105], prods=[106], parent=5)],
                     "perfile": {}, "inputs": {"100": 12, "105": 17, "101": 5}, "version": 0},
            "steps": [["build"]]}
-    return [f11, f11b, f13, mix, pers, gf1, gf1, gf2, gf2, aft, aft, meta, unc, late, late] + [f38] * 4
+    # a generator defining a task with the name of a collected task: it fails, nothing is added (6571c4f)
+    clash = {"tag": "corpus-name-clash",
+             "spec": {"pats": pats, "tasks": [_t(1, deps=[102], prods=[230]), _t(2, deps=[102], gen=True), _t(3, deps=[102], prods=[231], parent=2),
+                                              _t(4, deps=[102], prods=[232], parent=2, alias=1)],
+                      "perfile": {}, "inputs": {"102": 4}, "version": 0},
+             "steps": [["build"], ["build"]]}
+    return [f11, f11b, f13, mix, pers, gf1, gf1, gf2, gf2, aft, aft, meta, unc, late, late, clash] + [f38] * 4
 
 
 def gen_genfail(rng):
